@@ -9,7 +9,7 @@ use ciphercore_base::data_types::{array_type, scalar_type, vector_type, Type, BI
 use ciphercore_base::evaluators::simple_evaluator::SimpleEvaluator;
 use ciphercore_base::graphs::{create_context, Context, Graph, Node, NodeAnnotation, Operation};
 use ciphercore_base::inline::inline_ops::InlineMode;
-use ciphercore_base::mpc::mpc_compiler::{prepare_context, prepare_for_mpc_evaluation, IOStatus};
+use ciphercore_base::mpc::mpc_compiler::{prepare_context, prepare_for_mpc_evaluation, uniquify_prf_id, IOStatus};
 use ciphercore_base::optimizer::optimize::optimize_context;
 use rayon::prelude::*;
 use serde_json::{json, Value as J};
@@ -77,7 +77,14 @@ fn stages(
         let p = prepare_context(c, cfg.clone(), SimpleEvaluator::new(Some([7u8; 16]))?, false)?;
         let m = prepare_for_mpc_evaluation(&p.get_context(), vec![ins], vec![outs], cfg)?;
         let o = optimize_context(&m.get_context(), SimpleEvaluator::new(Some([7u8; 16]))?)?;
-        Ok(vec![("after-prepare_for_mpc_evaluation", m.get_context()), ("after-optimize", o.get_context())])
+        // the numbering pass applied once more to its own output (the pipeline re-prepares contexts that were
+        // compiled before; counters are then already 1..n when the pass starts)
+        let u = uniquify_prf_id(m.get_context())?;
+        Ok(vec![
+            ("after-prepare_for_mpc_evaluation", m.get_context()),
+            ("after-optimize", o.get_context()),
+            ("after-renumbering-the-compiled-context", u.get_context()),
+        ])
     });
     match res {
         Ok(Ok(v)) => Ok(v),
@@ -490,15 +497,119 @@ fn part_b(r: &Report) {
     }
 }
 
+// ---------------- part C: the numbering pass on graphs that already carry counters ----------------
+
+/// one graph (or, with `two_graphs`, a callee and a caller) whose PRF-type nodes carry the given counters
+fn build_c(kinds: &[bool], ivs: &[u64], two_graphs: bool) -> ciphercore_base::errors::Result<Context> {
+    let c = create_context()?;
+    let t = array_type(vec![2], UINT64);
+    let split = if two_graphs { kinds.len() / 2 } else { 0 };
+    let mut callee: Option<Graph> = None;
+    if two_graphs {
+        let f = c.create_graph()?;
+        let key = f.input(array_type(vec![128], BIT))?;
+        let mut outs = vec![];
+        for i in 0..split {
+            let op = if kinds[i] { Operation::PRF(ivs[i], t.clone()) } else { Operation::PermutationFromPRF(ivs[i], 2) };
+            outs.push(f.add_node(vec![key.clone()], vec![], op)?);
+        }
+        f.create_tuple(outs)?.set_as_output()?;
+        f.finalize()?;
+        callee = Some(f);
+    }
+    let g = c.create_graph()?;
+    let key = g.random(array_type(vec![128], BIT))?;
+    let mut outs = vec![];
+    if let Some(f) = callee {
+        outs.push(g.call(f, vec![key.clone()])?);
+    }
+    for i in split..kinds.len() {
+        let op = if kinds[i] { Operation::PRF(ivs[i], t.clone()) } else { Operation::PermutationFromPRF(ivs[i], 2) };
+        outs.push(g.add_node(vec![key.clone()], vec![], op)?);
+    }
+    g.create_tuple(outs)?.set_as_output()?;
+    g.finalize()?;
+    c.set_main_graph(g)?;
+    c.finalize()?;
+    Ok(c)
+}
+
+fn check_c(kinds: &[bool], ivs: &[u64], two_graphs: bool) -> Result<bool, String> {
+    let c = match catch(|| build_c(kinds, ivs, two_graphs)) {
+        Ok(Ok(c)) => c,
+        _ => return Ok(false),
+    };
+    let cc = c.clone();
+    let u = match catch(move || uniquify_prf_id(cc)) {
+        Ok(Ok(u)) => u.get_context(),
+        Ok(Err(e)) => return Err(format!("uniquify_prf_id fails: {}", first_line(&e.to_string()))),
+        Err(p) => return Err(format!("uniquify_prf_id panics: {}", p)),
+    };
+    let n = check_counters(&u)?;
+    if n != kinds.len() {
+        return Err(format!("{} PRF-type nodes before the numbering pass, {} after", kinds.len(), n));
+    }
+    Ok(true)
+}
+
+fn part_c(r: &Report) {
+    let alpha: [u64; 6] = [0, 1, 2, 3, 4, 7];
+    let max_n = if r.tier.thorough() { 5 } else { 4 };
+    let mut cases: Vec<(Vec<bool>, Vec<u64>, bool)> = vec![];
+    for n in 1..=max_n {
+        let mut ivs = vec![0usize; n];
+        loop {
+            let v: Vec<u64> = ivs.iter().map(|i| alpha[*i]).collect();
+            // node kinds: all PRF, all PermutationFromPRF, alternating (the counter space is shared by both kinds)
+            for kp in 0..3 {
+                let kinds: Vec<bool> = (0..n).map(|i| match kp { 0 => true, 1 => false, _ => i % 2 == 0 }).collect();
+                cases.push((kinds.clone(), v.clone(), false));
+                if n >= 2 && kp == 0 {
+                    cases.push((kinds, v.clone(), true));
+                }
+            }
+            let mut k = 0;
+            while k < n {
+                ivs[k] += 1;
+                if ivs[k] < alpha.len() {
+                    break;
+                }
+                ivs[k] = 0;
+                k += 1;
+            }
+            if k == n {
+                break;
+            }
+        }
+    }
+    let results: Vec<Result<bool, String>> = cases.par_iter().map(|(k, v, t)| check_c(k, v, *t)).collect();
+    for (i, res) in results.into_iter().enumerate() {
+        r.count("evaluations", 1);
+        match res {
+            Ok(true) => {
+                r.count("prenumbered_graphs", 1);
+                r.distinct_str(&format!("C{:?}", cases[i]));
+            }
+            Ok(false) => r.count("prenumbered_graphs_rejected_by_builder", 1),
+            Err(m) => r.violation(
+                "C04:C:renumbering",
+                &format!("uniquify_prf_id on a graph whose PRF-type nodes (PRF={:?}) carry the counters {:?}{}: {}", cases[i].0, cases[i].1, if cases[i].2 { " (first half in a called graph)" } else { "" }, m),
+                json!({"part": "C", "kinds": cases[i].0, "ivs": cases[i].1, "two_graphs": cases[i].2}),
+            ),
+        }
+    }
+}
+
 pub fn run(r: &Report) -> i32 {
     part_a(r);
     part_b(r);
+    part_c(r);
     r.finish(
         "exploration",
         "part A: for every program of the C01 space (depth 1 + curated + protocols drawing several masks from one key: OT, both truncations, A2B/B2A, sort, Call/Iterate bodies inlined 1,2,5,17 times) x owner vectors x output subsets x 3 inline modes, the counters of all PRF/PermutationFromPRF nodes after prepare_for_mpc_evaluation and after the final optimize_context are pairwise distinct and non-zero. part B: every inlined graph with 1..2 (thorough 3) nodes from {Random, RandomPermutation, PRF(key,iv), PermutationFromPRF(key,iv)} with key in {Random, Input, Constant, Random sent through an annotated NOP} x 9 output expressions (using all / some / none of them, through tuples, duplicated uses) is optimised; with the returned mapping every output-relevant original randomising node maps to a node with the identical operation, distinct originals map to distinct nodes, and the optimised graph has no randomising node without pre-image. distinct = distinct optimised contexts with >= 2 PRF nodes (A) and distinct generated graphs (B)",
         true,
         &["structural oracle; the semantic effect of optimisation is C06's subject"],
-        &["evaluations", "prf_nodes_inspected", "contexts_with_2plus_prf_nodes", "contexts_with_key_used_for_several_masks", "optimizer_graphs", "optimizer_graphs_with_dropped_random_node"],
+        &["evaluations", "prf_nodes_inspected", "contexts_with_2plus_prf_nodes", "contexts_with_key_used_for_several_masks", "optimizer_graphs", "optimizer_graphs_with_dropped_random_node", "prenumbered_graphs"],
     )
 }
 
@@ -525,6 +636,19 @@ pub fn replay(_r: &Report, rec: &J) -> i32 {
             Err(e) => {
                 println!("compile: {}", e);
                 0
+            }
+        }
+    } else if case["part"] == "C" {
+        let kinds: Vec<bool> = case["kinds"].as_array().unwrap().iter().map(|x| x.as_bool().unwrap()).collect();
+        let ivs: Vec<u64> = case["ivs"].as_array().unwrap().iter().map(|x| x.as_u64().unwrap()).collect();
+        match check_c(&kinds, &ivs, case["two_graphs"].as_bool().unwrap_or(false)) {
+            Ok(_) => {
+                println!("counters distinct after the numbering pass (violation does not reproduce)");
+                0
+            }
+            Err(m) => {
+                println!("{}", m);
+                1
             }
         }
     } else {
